@@ -364,6 +364,53 @@ class Inliner:
                                                          value=ast.Constant(value=None), type_comment=None), at))
             return pre + (body or [ast.copy_location(ast.Pass(), at)])
 
+        def has_ret(ss):
+            return any(isinstance(n, ast.Return) for x in ss for n in _walk_no_nested(x))
+
+        def terminates(ss):
+            if not ss:
+                return False
+            t = ss[-1]
+            if isinstance(t, (ast.Return, ast.Raise)):
+                return True
+            return isinstance(t, ast.If) and terminates(t.body) and terminates(t.orelse)
+
+        def lower(ss):
+            """guard clauses -> structured if/else (None: not of that shape)"""
+            out = []
+            for i, st in enumerate(ss):
+                if isinstance(st, ast.Return):
+                    return out + ret_to(st)
+                if isinstance(st, ast.Raise):
+                    return out + [st]
+                if not has_ret([st]):
+                    out.append(st)
+                    continue
+                if not isinstance(st, ast.If):
+                    return None
+                bt, ot = terminates(st.body), terminates(st.orelse)
+                rest = ss[i + 1:]
+                if bt and ot:
+                    b, o = lower(st.body), lower(st.orelse)
+                elif bt and not has_ret(st.orelse):
+                    b, o = lower(st.body), lower(st.orelse + rest)
+                elif ot and not has_ret(st.body):
+                    b, o = lower(st.body + rest), lower(st.orelse)
+                else:
+                    return None
+                if b is None or o is None:
+                    return None
+                out.append(ast.copy_location(ast.If(test=st.test, body=b or [ast.copy_location(ast.Pass(), st)],
+                                                    orelse=o), st))
+                return out
+            if target is not None:
+                out.append(ast.copy_location(ast.Assign(targets=copy.deepcopy(target),
+                                                        value=ast.Constant(value=None), type_comment=None), at))
+            return out
+        low = lower(body)
+        if low is not None:
+            return pre + (low or [ast.copy_location(ast.Pass(), at)])
+
         class R(ast.NodeTransformer):
             def visit_Return(self, node):
                 return ret_to(node) + [ast.copy_location(ast.Break(), node)]
@@ -534,6 +581,32 @@ class _InlineExprs(ast.NodeTransformer):
         return node
 
 
+class _FoldConst(ast.NodeTransformer):
+    """N6: `if <literal>:` left behind by inlining a helper called with a literal flag
+    is replaced by the branch taken."""
+
+    @staticmethod
+    def _value(t):
+        if isinstance(t, ast.Constant) and isinstance(t.value, (bool, int, str, type(None))):
+            return True, bool(t.value)
+        if isinstance(t, ast.UnaryOp) and isinstance(t.op, ast.Not):
+            k, v = _FoldConst._value(t.operand)
+            if k:
+                return True, not v
+        return False, None
+
+    def visit_If(self, node):
+        self.generic_visit(node)
+        k, v = self._value(node.test)
+        if not k:
+            return node
+        body = node.body if v else node.orelse
+        return body or [ast.copy_location(ast.Pass(), node)]
+
+    def visit_Lambda(self, node):
+        return node
+
+
 def _forward_process_temps(fn):
     """N5: `g = obj.method(args)` used exactly once, as the argument of `<env>.process(g)`,
     is substituted there (a spawn written through a temporary)."""
@@ -618,6 +691,7 @@ def normalize_module(tree, no_inline, all_classes=None):
                     # newly exposed conditional expressions / literal loops
                     _IfExpDesugar().visit(fn)
                     _Unroll().visit(fn)
+                    _FoldConst().visit(fn)
                 else:
                     break
             _forward_process_temps(fn)
